@@ -176,4 +176,41 @@ end
 def StablePipeline (p : Pipeline) : Prop :=
   (∀ l, p.steps = some l → StableSteps l) ∧ StableUMap p.rem
 
+/-! ## The same side conditions for the YAML leg
+
+  yaml.v3 drops an adjustment's `skip` only when it is nil, so finding F11 (the `emptyishSkip` condition)
+  does not apply there; everything else is as on the JSON leg. -/
+
+def StableAdjustmentY (a : Adjustment) : Prop := JStable a.skip ∧ StableUMap a.rem
+
+def StableMatrixY (m : Matrix) : Prop :=
+  (∀ l, m.adjustments = some l → ∀ a, some a ∈ l → StableAdjustmentY a) ∧
+  (∀ l, m.adjustments = some l → none ∉ l) ∧ StableUMap m.rem
+
+def StableCommandY (c : CommandStep) : Prop :=
+  noEmptyPrimaryWithAlias c.key c.label c.rem ∧
+  (∀ l, c.plugins = some l → ∀ p, some p ∈ l → JStable p.config) ∧
+  (∀ m, c.matrix = some m → StableMatrixY m) ∧
+  (∀ k, c.cache = some k → StableUMap k.rem) ∧
+  StableUMap c.rem
+
+mutual
+  def StableStepY : Step → Prop
+    | .command c => StableCommandY c
+    | .wait _ c => StableUMap c
+    | .input _ c => StableUMap c
+    | .trigger c => StableUMap c
+    | .group k g ss r =>
+      (match ss with | none => True | some l => StableStepsY l) ∧ StableUMap r ∧
+      (g = none → (r.getD []).lookup "label" = none ∧ (r.getD []).lookup "name" = none) ∧
+      (k = "" → (r.getD []).lookup "id" = none ∧ (r.getD []).lookup "identifier" = none)
+    | .unknown v => JStable v
+  def StableStepsY : List Step → Prop
+    | [] => True
+    | s :: r => StableStepY s ∧ StableStepsY r
+end
+
+def StablePipelineY (p : Pipeline) : Prop :=
+  (∀ l, p.steps = some l → StableStepsY l) ∧ StableUMap p.rem
+
 end GoPipeline.Roundtrip
